@@ -501,7 +501,62 @@ class DropDuplicates(Contract):
         return {"reproduced": None, "why": "decided by the bounded histories"}
 
 
-CONTRACTS = [GetSubset, RemoveFeature, Intersection, MergeAndRenumber, RenumberParticles, RenumberObjects, SplitByFeature, DropDuplicates]
+class MergeAndDropDuplicates(Contract):
+    """Motl.merge_and_drop_duplicates (caller verified against the callee contract DropDuplicates above): the table handed to drop_duplicates is the
+    concatenation of ALL rows of all inputs, each with every field but object_id unchanged (so id and score -- what the callee decides on -- are the
+    inputs' own); drop_duplicates is called exactly once, with its default arguments (one row per subtomo_id, highest score), on the object that is
+    returned; the inputs are not modified.  Together with DropDuplicates' postcondition: one best-scoring row per id over the union of the inputs."""
+    prop = "C08"
+    module = "cryomotl"
+    qual = "Motl.merge_and_drop_duplicates"
+    configs = [{"k": 2}, {"k": 3}]
+
+    def cfg_name(self, cfg):
+        return f"{cfg['k']}lists"
+
+    def bind(self, cx, cfg):
+        calls = []
+
+        def dd(self_, *a, **k):
+            calls.append((self_, self_.df, a, k))
+        it = common.motl_interp(contracts={"Motl.drop_duplicates": dd})
+        ds = [common.fresh_motl_frame(prefix=f"l{j}_", angles=False) for j in range(cfg["k"])]
+        for d in ds:
+            cx.assume(d.space.n.t >= 1)
+        ms = [common.motl_obj(it, d) for d in ds]
+        f = it.function("Motl.merge_and_drop_duplicates").bind(it.globals["Motl"])
+
+        def thunk():
+            calls.clear()
+            r = f(list(ms))
+            return {"ret": r, "calls": list(calls)}
+        return thunk, {"ms": ms, "k": cfg["k"]}
+
+    def post(self, cx, cfg, inp, res):
+        calls = res["calls"]
+        one = len(calls) == 1 and calls[0][2] == () and calls[0][3] == {} and calls[0][0] is res["ret"]
+        cl = [("drop_duplicates_called_once_with_defaults_on_the_returned_list", z3.BoolVal(bool(one)))]
+        if not one:
+            return cl
+        tab = calls[0][1]
+        parts = getattr(tab, "parts", None)
+        # create_empty_motl_df() contributes an empty leading part
+        parts = [p for p in (parts or []) if not (isinstance(getattr(p.space.n, "t", None), z3.ExprRef) and z3.is_int_value(p.space.n.t) and p.space.n.t.as_long() == 0)] if parts is not None else None
+        if parts is None or len(parts) != cfg["k"]:
+            return cl + [("deduplicated_table_is_concatenation_of_all_inputs", z3.BoolVal(False))]
+        old = [common.old_row(f"l{j}_") for j in range(cfg["k"])]
+        for j in range(cfg["k"]):
+            cl.append((f"input_{j}_rows_all_present", z3.And(parts[j].space.n.t == inp["ms"][j].df.space.n.t, parts[j].present if isinstance(parts[j].present, z3.ExprRef) else z3.BoolVal(bool(parts[j].present))), ()))
+            cl.append((f"input_{j}_fields_but_object_id_unchanged", _unchanged(parts[j], old[j], [c for c in MOTL_COLS if c != "object_id"]), ()))
+            cl.append((f"frame.input_{j}_untouched", _unchanged(inp["ms"][j].df, old[j]), ()))
+        cl.append(("returned_table_is_the_deduplicated_one", z3.BoolVal(res["ret"].df is tab or getattr(res["ret"].df, "parts", None) is getattr(tab, "parts", None))))
+        return cl
+
+    def replay(self, clause, model, cfg):
+        return {"reproduced": None, "why": "decided by the bounded histories"}
+
+
+CONTRACTS = [GetSubset, RemoveFeature, Intersection, MergeAndRenumber, RenumberParticles, RenumberObjects, SplitByFeature, DropDuplicates, MergeAndDropDuplicates]
 LEVEL = "proof"
 EXPLANATION = ("Membership (with multiplicity), row preservation and the 20-field schema are postconditions of get_motl_subset, remove_feature, get_motl_intersection, "
                "merge_and_renumber (2 and 3 inputs: object numbers of different inputs differ for arbitrary rows, ids = position+1) and renumber_particles, proved on generic rows "
@@ -509,7 +564,7 @@ EXPLANATION = ("Membership (with multiplicity), row preservation and the 20-fiel
                "renumber_objects_sequentially: the helper applied per tomogram is executed from the real AST on one arbitrary group; the fold over the tomograms in ascending order keeps the invariant "
                "'the numbers given so far are start .. counter-1, each of them used, and two rows share a number exactly when they share tomogram and object' (four preservation obligations with ghost offset / "
                "witness functions; the counter starts at the requested number), which after the last tomogram is the property's clause for the whole list. "
-               "Order inside results and merge_and_drop_duplicates: bounded histories only.")
+               "merge_and_drop_duplicates: caller verified against the drop_duplicates contract (concatenation of all inputs, one call with defaults). Order inside results: bounded histories only.")
 ASSUMPTIONS = ["pandas contract: inner merge on a shared column repeats a left row once per matching right row, Series.drop_duplicates keeps one row per value; concat keeps all rows; min/max of a column bound every row",
                "requires of get_motl_subset: requested values distinct (duplicates would duplicate rows, as documented by the loop)",
                "pandas contract for renumber_objects_sequentially: groupby(key, sort=True)[all columns].apply(f) calls f once per distinct key in ascending order with that key's rows and returns the rows of the returned "
